@@ -30,7 +30,7 @@ META = {
 NEG = [('D2', ['Inv_C01_Once', 'Inv_C01_Counters']), ('D101', ['Inv_C01_WellFormed']), ('D102', ['Inv_C01_Once']),
        ('D103', ['Inv_C01_Once']), ('D104', ['Inv_C01_Once']),
        ('S_append_existing', ['Inv_C01_AtMostOnce', 'Inv_C01_Counters']), ('impl', ['Inv_C01_Once', 'Inv_C01_Counters', 'Inv_C01_WellFormed'])]
-CELL_ACTIONS_Q = ['ReadPair', 'WriteAccepted', 'RejectViaBase', 'RejectRaw', 'HandleError', 'Finish']   # per-cell configs: fewer classes
+CELL_ACTIONS_Q = ['ReadPair', 'WriteAccepted', 'RejectViaBase', 'HandleError', 'Finish']   # per-cell configs: fewer classes
 CELL_ACTIONS_T = ['ReadPair', 'WriteAccepted', 'RejectViaBase', 'RejectRaw', 'Finish']
 
 
@@ -60,9 +60,16 @@ def key_fn(ev, clause):
         if ev['percell']:
             shape.append('percell')
     elif clause == 'Inv_C01_WellFormed':
-        raw = any(any(t[0] == 'Rr' for t in r.get('tags', [])) for sk in ev['rej'] for m in sk['mates'] for r in m['recs'])
-        glued = any('@' in r.get('qual', '') and r['ql'] != r['sl'] for sk in ev['rej'] for m in sk['mates'] for r in m['recs'])
-        shape.append('rejects_glued_after_raw_fallback' if raw or glued else 'other')
+        streams = [(kind, m) for kind in ('tgt', 'rej') for sk in ev[kind] for m in sk['mates']]
+        broken = [kind for kind, m in streams if m['nlines'] != 4 * len(m['recs']) or any(r['c0'] != '@' for r in m['recs'])]
+        if broken:
+            raw = any(any(t[0] == 'Rr' for t in r.get('tags', [])) for sk in ev['rej'] for m in sk['mates'] for r in m['recs'])
+            shape.append('rejects_glued_after_raw_fallback' if raw and 'rej' in broken else 'not_4_line_records_in_' + broken[0])
+        else:
+            last = all(i == len(m['recs']) - 1 for _, m in streams for i, r in enumerate(m['recs']) if r['sl'] != r['ql'])
+            shape.append('seq_qual_length_differs' + ('_last_record_only' if last else ''))
+        if ev.get('nofinalnl'):
+            shape.append('input_without_final_newline')
     elif clause == 'Inv_C01_Counters':
         nt = sum(len(sk['mates'][0]['recs']) for sk in ev['tgt'])
         shape.append('yields%swritten' % {'-': '<', '+': '>', '0': '='}[sign(sum(ev['yields']) - nt)])
